@@ -20,6 +20,9 @@ type op struct {
 	run  func(b *backend) []string
 	// exp is the reference model's exact transcript (nil when the answer is not in the obvious subset)
 	exp []string
+	// expP is the reference transcript for Pebble where generickv documents a different pruning of the
+	// online-account table than sqlitedriver (model.hist); nil = same as exp
+	expP []string
 	// chk is a partial reference check used where only part of the answer is obvious
 	chk func(lines []string) string
 	// pebbleSkip: reader documented as not implemented by the KV backend; only SQLite is asked
@@ -27,6 +30,12 @@ type op struct {
 	// emptyAns is the transcript of a backend that finds no stored key at all (box listing readers only);
 	// it is the signature of the known finding "generickv scans the raw key space instead of the box table".
 	emptyAns []string
+	// qround is the round argument of round-indexed readers
+	qround uint64
+	// ffAns: what generickv's LookupOnline answers for a round whose low byte is 0xff (known finding): its
+	// exclusive upper bound is the round key with the last byte incremented, which wraps to 0x00 without
+	// carry, so only rows with updround < round-255 are in range.
+	ffAns []string
 }
 
 const nReadKinds = 25
@@ -357,10 +366,17 @@ func (s *Sim) buildRead(kind int, p []int, rc int) *op {
 				return []string{fmt.Sprintf("ref=%s data=%s", refStr(ref), hx(buf))}
 			})
 		}
+		o.exp, o.expP = m.perVariant(func(h map[int]map[uint64]onlineEntry) []string {
+			if _, e, ok := latestIn(h, a, ^uint64(0)); ok {
+				return []string{"ref=ref data=" + encOnl(e.data)}
+			}
+			return []string{"err=notfound"}
+		})
 	case 12: // LookupOnline
 		a := p[0] % nAddr
 		r := s.pickRound(m, p[1])
 		o.desc = fmt.Sprintf("LookupOnline(A%d,%d)", a, r)
+		o.qround = r
 		o.run = func(b *backend) []string {
 			return b.read(rc, func(rd readers) []string {
 				d, err := rd.oar.LookupOnline(addrs[a], basics.Round(r))
@@ -370,32 +386,32 @@ func (s *Sim) buildRead(kind int, p []int, rc int) *op {
 				return []string{fmt.Sprintf("addr=%s ref=%s upd=%d rnd=%d data=%s", addrName(d.Addr), refStr(d.Ref), rnd(d.UpdRound), rnd(d.Round), encOnl(d.AccountData))}
 			})
 		}
-		if r >= m.onlFB {
-			// obvious part: what the account effectively is at r (history below forgetBefore may be pruned)
-			upd, e, found := m.latestOnline(a, r)
-			mround := m.round
-			o.chk = func(lines []string) string {
-				if len(lines) != 1 || strings.HasPrefix(lines[0], "err=") {
-					return "unexpected error"
+		mround := m.round
+		o.exp, o.expP = m.perVariant(func(h map[int]map[uint64]onlineEntry) []string {
+			if upd, e, ok := latestIn(h, a, r); ok {
+				return []string{fmt.Sprintf("addr=A%d ref=ref upd=%d rnd=%d data=%s", a, upd, mround, encOnl(e.data))}
+			}
+			return []string{fmt.Sprintf("addr=A%d ref=nil upd=0 rnd=%d data=%s", a, mround, encOnl(trackerdb.BaseOnlineAccountData{}))}
+		})
+		if r%256 == 255 {
+			o.ffAns = []string{fmt.Sprintf("addr=A%d ref=nil upd=0 rnd=%d data=%s", a, mround, encOnl(trackerdb.BaseOnlineAccountData{}))}
+			if r >= 256 {
+				if upd, e, ok := latestIn(m.hist[1], a, r-256); ok {
+					o.ffAns = []string{fmt.Sprintf("addr=A%d ref=ref upd=%d rnd=%d data=%s", a, upd, mround, encOnl(e.data))}
 				}
-				if !found || e.data.IsVotingEmpty() {
-					if !strings.HasSuffix(lines[0], " data="+encOnl(trackerdb.BaseOnlineAccountData{})) {
-						return "account is offline / unknown at that round but data returned"
-					}
-					if !strings.Contains(lines[0], fmt.Sprintf(" rnd=%d ", mround)) {
-						return "db round"
-					}
-					return ""
-				}
-				want := fmt.Sprintf("addr=A%d ref=ref upd=%d rnd=%d data=%s", a, upd, mround, encOnl(e.data))
-				if lines[0] != want {
-					return "want " + want
-				}
-				return ""
 			}
 		}
 	case 13: // LookupOnlineHistory
+		// acctonline.lookupOnlineAccountData asks for the history only after LookupOnline returned a row for
+		// the address, so only addresses that have (had) online rows are asked about (the rows may be gone by
+		// now: a commit can prune them between the two calls).
 		a := p[0] % nAddr
+		for i := 0; i < nAddr && len(m.online[a]) == 0; i++ {
+			a = (a + 1) % nAddr
+		}
+		if len(m.online[a]) == 0 {
+			return s.buildRead(12, p, rc)
+		}
 		o.desc = fmt.Sprintf("LookupOnlineHistory(A%d)", a)
 		o.run = func(b *backend) []string {
 			return b.read(rc, func(rd readers) []string {
@@ -410,6 +426,15 @@ func (s *Sim) buildRead(kind int, p []int, rc int) *op {
 				return out
 			})
 		}
+		mround := m.round
+		o.exp, o.expP = m.perVariant(func(h map[int]map[uint64]onlineEntry) []string {
+			rs := sortedRounds(h[a])
+			out := []string{fmt.Sprintf("rnd=%d n=%d", mround, len(rs))}
+			for _, r := range rs {
+				out = append(out, fmt.Sprintf("addr=A%d ref=ref upd=%d itemrnd=0 data=%s", a, r, encOnl(h[a][r].data)))
+			}
+			return out
+		})
 	case 14: // LookupOnlineRoundParams
 		r := s.pickRound(m, p[0])
 		o.desc = fmt.Sprintf("LookupOnlineRoundParams(%d)", r)
@@ -470,6 +495,24 @@ func (s *Sim) buildRead(kind int, p []int, rc int) *op {
 				return out
 			})
 		}
+		o.exp, o.expP = m.perVariant(func(h map[int]map[uint64]onlineEntry) []string {
+			// rows ordered by (address bytes, updround); with max > 0 only the rows of the first max addresses
+			var as []int
+			for a := range h {
+				as = append(as, a)
+			}
+			sort.Slice(as, func(i, j int) bool { return string(addrs[as[i]][:]) < string(addrs[as[j]][:]) })
+			if max > 0 && uint64(len(as)) > max {
+				as = as[:max]
+			}
+			var rows []string
+			for _, a := range as {
+				for _, r := range sortedRounds(h[a]) {
+					rows = append(rows, fmt.Sprintf("addr=A%d ref=ref upd=%d data=%s", a, r, encOnl(h[a][r].data)))
+				}
+			}
+			return append([]string{fmt.Sprintf("n=%d", len(rows))}, rows...)
+		})
 	case 17: // AccountsOnlineTop
 		r := s.pickRound(m, p[0])
 		offset := uint64(p[1] % 5)
@@ -494,7 +537,7 @@ func (s *Sim) buildRead(kind int, p []int, rc int) *op {
 	case 18: // ExpiredOnlineAccountsForRound
 		r := s.pickRound(m, p[0])
 		voteRnd := r + uint64(p[1]%12)
-		level := uint64(p[2] % 3)
+		level := uint64(10 + p[2]%3) // never below an account's RewardsBase (ledger invariant)
 		o.desc = fmt.Sprintf("ExpiredOnlineAccountsForRound(rnd=%d,voteRnd=%d,level=%d)", r, voteRnd, level)
 		o.run = func(b *backend) []string {
 			return b.read(rc, func(rd readers) []string {
@@ -855,4 +898,15 @@ func (m *model) expired(r, voteRnd, rewardUnit, level uint64) []string {
 		}
 	}
 	return fmtExpired(mp)
+}
+
+// perVariant evaluates a reference answer on the sqlitedriver-documented and on the generickv-documented
+// pruning of the online-account table; the second result is nil when both agree.
+func (m *model) perVariant(f func(h map[int]map[uint64]onlineEntry) []string) (exp, expP []string) {
+	exp = f(m.hist[0])
+	p := f(m.hist[1])
+	if !eq(exp, p) {
+		expP = p
+	}
+	return
 }
